@@ -368,7 +368,7 @@ def ineq_bqm_case(ctx, r, lines, checks):
            'feas = lambda x: lb <= sum(a*x[v] for v, a in terms) + c <= ub\n'
            'try:\n'
            f'    sl = b.add_linear_inequality_constraint(terms, lam, {label!r}, constant=c, lb=lb, ub=ub, cross_zero={cross})\n'
-           'except ValueError:\n'
+           'except Exception:\n'
            '    assert not any(feas(dict(zip(vs, t))) for t in itertools.product(dom, repeat=len(vs))), "refused a feasible constraint"\n'
            '    raise SystemExit(0)\n'
            'c1 = coef(b); ss = [v for v, _ in sl]\n'
@@ -390,6 +390,9 @@ def ineq_bqm_case(ctx, r, lines, checks):
         raised = False
     except ValueError:
         raised = True
+    except Exception as e:  # noqa  any other exception is a refusal too ("refuses only truly infeasible constraints")
+        raised = True
+        ctx.tick('ineqbqm:raises:' + type(e).__name__)
     ctx.tick(f'ineqbqm:{vt}' + (':raises' if raised else '') + (':cross' if cross else ''))
     ctx.case(('ineqbqm', line, kind, vt), nontrivial=not raised,
              sample=dict(vartype=vt, terms=repr(terms), constant=c, lb=lb, ub=ub, lam=str(lam)))
@@ -849,11 +852,15 @@ def directed_known(ctx):
            '    m = min(b.energy({"a": a, "b": bb, **dict(zip(ss, u))}) for u in itertools.product((-1, 1), repeat=len(ss)))\n'
            '    assert (m == 0) if -5 <= a + bb <= 0 else (m >= 1), (a, bb, m)\n')
     b = BQM('SPIN')
-    with warnings.catch_warnings():
-        warnings.simplefilter('ignore')
-        sl = b.add_linear_inequality_constraint([('a', 1), ('b', 1)], 1.0, 'c', ub=0, lb=-5)
-    ss = [v for v, _ in sl]
     ctx.tick('directed:D18'); ctx.case(('directed', 'D18'), nontrivial=True)
+    try:
+        with warnings.catch_warnings():
+            warnings.simplefilter('ignore')
+            sl = b.add_linear_inequality_constraint([('a', 1), ('b', 1)], 1.0, 'c', ub=0, lb=-5)
+    except Exception as e:  # noqa  the directed (known-finding) case itself must not stop the run
+        ctx.tick('directed:D18:raises:' + type(e).__name__)
+        return
+    ss = [v for v, _ in sl]
     for a, bb in itertools.product((-1, 1), repeat=2):
         m = min(b.energy({'a': a, 'b': bb, **dict(zip(ss, u))}) for u in itertools.product((-1, 1), repeat=len(ss)))
         if (m != 0) if -5 <= a + bb <= 0 else (m < 1):
